@@ -826,7 +826,7 @@ theorem parseModMass_not_form' (T : Tables) (a : Str) (mono : Bool) (h : massFor
     · cases h
     · cases h
     · rename_i hs
-      rw [hs]
+      try rw [hs]
       exact massStrBody_not_form T _ mono h
 
 theorem compStrBody_not_form (T : Tables) (m : Str)
@@ -848,11 +848,11 @@ theorem parseModComp_not_form' (T : Tables) (a : Str) (h : compForm T a = false)
   rw [parseModComp_eq]
   unfold compForm at h
   split at h
-  · rename_i hs; rw [hs]
-  · rename_i hs; rw [hs]
+  · rename_i hs; first | rw [hs] | rfl
+  · rename_i hs; first | rw [hs] | rfl
   · rename_i hs
-    rw [hs]
-    simp only
+    try rw [hs]
+    try simp only
     split at h
     · cases h
     · rename_i hc
